@@ -50,7 +50,11 @@ def prelude(res, ctx, need_race=False, lean=True):
     res.checker_cmd = "cd /verif/lean && lake build %s driver && lake env lean <#print axioms of each theorem>" % mod
     if ctx.tier == "thorough":
         res.checker_cmd += " && lake env leanchecker " + mod
-    ok, out, dt = core.lake_build(([mod] if thms else []) + ["driver"])
+    consts = pid not in ("C08", "C09", "C15", "C16", "C19")
+    if consts:
+        thms = thms + ["XixiKV.ConstsCheck.consts_match"]
+        res.obligations = list(thms)
+    ok, out, dt = core.lake_build(([mod] if thms else []) + (["XixiKV.Proofs.ConstsCheck"] if consts else []) + ["driver"])
     ctx.model_ok = os.path.exists(core.DRIVER) and ok
     if not thms:
         res.notes.append("no Lean theorems for this property yet")
@@ -66,7 +70,7 @@ def prelude(res, ctx, need_race=False, lean=True):
     hits = core.lean_sources_clean()
     if hits:
         res.violation("forbidden constructs in Lean sources: " + "; ".join(hits[:5]), {"hits": hits}, no_input=True)
-    axs, raw, rc = core.audit_axioms(mod, thms)
+    axs, raw, rc = core.audit_axioms(mod + ("\nimport XixiKV.Proofs.ConstsCheck" if consts else ""), thms)
     bad = {}
     for t in thms:
         if t not in axs:
@@ -1032,7 +1036,34 @@ CHECKS = {
     "C20": check_C20,
 }
 
+A_MODEL = "the hand-written Lean model is the code on the explored inputs (differential correspondence), not by construction"
+A_THIRD = "google/btree, huandu/skiplist, Go maps, container/heap, sort.Search behave as finite sorted maps / priority queue / binary search"
+A_FS = "kernel file semantics: write/rename/unlink/ftruncate atomic w.r.t. process death, O_APPEND appends, a shared mapping inside the file is the file"
+A_SYNC = "fsync/msync make the covered prefix durable; created files' directory entries are durable (no power can be cut in the sandbox)"
+A_IDS = "batch ids (snowflake, time based) are fresh w.r.t. unfinished batches already in the log"
 ASSUME = {
+    "C01": [A_MODEL, A_THIRD, "key/value sizes < 2^31 (the Go header buffer)"],
+    "C02": [A_MODEL, A_THIRD, A_IDS],
+    "C03": [A_MODEL, A_FS, A_SYNC, "a crash image is a cut of the files at an intercepted I/O event; power loss cuts only unsynced tails (no page reordering)"],
+    "C04": [A_MODEL, A_FS, A_SYNC, A_IDS],
+    "C05": [A_MODEL, A_THIRD, A_IDS],
+    "C06": [A_MODEL, A_FS, A_IDS, "the order in which Merge visits older files (Go map iteration) is an input of the model"],
+    "C07": [A_MODEL, A_FS, "os.Rename over an existing file is atomic; a crash falls between two file-system calls"],
+    "C08": [A_MODEL, "the lockset table extracted from the Go AST describes the code (walker semantics: inlining, defer, branches)", "sync.RWMutex semantics",
+            "the sharded index is one atomic map per operation (shard locks; C09_generated)"],
+    "C09": ["lockset table as under C08", "the Go memory model is not formalised; races inside third-party containers / fio.MMap are outside the model",
+            "the race detector sees only executed schedules (search role)"],
+    "C10": [A_MODEL, A_THIRD, "xxhash is an arbitrary function (shard of a key is an input of the model)"],
+    "C11": [A_MODEL, "hash/crc32 IEEE = the bitwise reflected CRC-32 of the model (checked by byte-exact file sums)"],
+    "C12": [A_MODEL, "fault model: bit flips, overwrites, truncation of data/hint/marker files; a CRC-valid foreign payload is outside it"],
+    "C13": [A_MODEL, A_SYNC],
+    "C14": [A_MODEL, A_THIRD],
+    "C15": ["no formal model of Go's heap: absence of aliasing is established by the scribble-mode differential runs"],
+    "C16": ["flock(2) / gofrs/flock give one exclusive advisory lock per directory across processes"],
+    "C17": [A_MODEL, "key+value <= 2^27 bytes for the size-estimate lemma (first under-estimate documented at ~146 MiB / 293 MiB / 439 MiB depending on the record)"],
+    "C18": [A_MODEL, "file ids and sizes < 2^32 (hint fields are uint32)"],
+    "C19": [A_MODEL, "time.Now is monotone between deletion/expiry of a key and its re-creation; user keys prefix-free; zset member/score-key clash excluded"],
+    "C20": [A_MODEL, A_FS, "utils.CopyDir copies bytes (no hard links)"],
 }
 
 
